@@ -15,6 +15,8 @@ RowV(r) == IF ~r.present THEN NoRow ELSE [a |-> r.a, o |-> SeqToSet(r.o), s |-> 
 OpV(op) ==
     [op |-> op.op, col |-> op.col, mut |-> op.mut, shape |-> op.shape,
      val |-> CASE op.op = "insert" -> RowV(op.val)
+               [] op.op = "mutate2" ->
+                    [i \in 1..2 |-> IF op.col = "s" \/ op.shape[i] = "keys" THEN SeqToSet(op.val[i]) ELSE MapV(op.val[i])]
                [] op.op = "delete" -> 0
                [] op.col = "a" -> op.val
                [] op.col \in {"o", "s"} -> SeqToSet(op.val)
